@@ -386,3 +386,23 @@ package rsm
 
 //@ func (s *StateMachine) entryInInitDiskSM [C08 C11]
 //@ ensures result == (s.onDiskSM && index <= s.onDiskInitIndex)
+
+// ---------------------------------------------------------------- replacing the snapshot file by its shrunk version (C16)
+// gRemoved: the set of paths that have been unlinked through the file system interface
+//@ ghost var gRemoved set
+//@ extern github.com/lni/vfs (fs FS) Remove
+//@ ghostset gRemoved := store(old(gRemoved), name, true)
+//@ extern github.com/lni/vfs (fs FS) RemoveAll
+//@ ghostset gRemoved := store(old(gRemoved), dir, true)
+//@ extern github.com/lni/vfs (fs FS) Rename
+//@ extern github.com/lni/vfs (fs FS) PathDir
+//@ extern github.com/lni/vfs (fs FS) PathBase
+//@ extern github.com/lni/vfs (fs FS) PathJoin
+
+// the recorded snapshot file is only ever replaced atomically (rename over it, then directory
+// sync); it is never unlinked first, so a crash cannot leave the recorded snapshot without a file
+//@ func ReplaceSnapshot [C16]
+//@ noframe
+//@ requires !gRemoved[fp]
+//@ modifies gRemoved
+//@ ensures !gRemoved[fp]
